@@ -81,7 +81,7 @@ func zzCfgPeers(c int) []int {
 	case 2:
 		return []int{0, 9, 9}
 	case 3:
-		return []int{11}
+		return []int{10}
 	}
 	return nil
 }
@@ -214,24 +214,40 @@ func zzMenu(model []zzRec, gov int) []int {
 			}
 		}
 	}
-	return append(menu, 8)
+	return append(menu, 11)
 }
 
 // zzMakeHeader: a header whose height, bookkeeper list, signers, announced configuration and remaining scalar
 // fields are solver choices. `fewer` drops the last signature.
-func zzMakeHeader(model []zzRec, bmax int, fewer bool, ncfg int) *zzHdr {
+//
+// hmax == 0: the height is any 32-bit value, the announced configuration a symbolic marker and the other scalar
+// fields symbolic (the header hash is then an uninterpreted function of symbolic bytes).
+// hmax > 0 (history harness): the height is explored value by value in [0,hmax), the configuration likewise and
+// the other fields are fixed, so that the header hash and every storage key are concrete.
+func zzMakeHeader(model []zzRec, bmax int, fewer bool, ncfg int, hmax int) *zzHdr {
 	hd := &zzHdr{}
 	// decide which set governs the header's height first (forks over the relative order of the heights), so
 	// that the bookkeeper menu can be built from it
-	height := zzsym.U32("height")
+	var height uint32
+	var c int
+	h := &otypes.Header{Version: 0}
+	if hmax > 0 {
+		height = uint32(zzsym.Choose("h", hmax))
+		c = zzsym.Choose("c", ncfg)
+	} else {
+		height = zzsym.U32("height")
+		c = zzsym.Int("cfg")
+		zzsym.Assume(c >= 0 && c < ncfg)
+		h.Timestamp = zzsym.U32("ts")
+		h.ConsensusData = zzsym.U64("cdata")
+		copy(h.PrevBlockHash[:], zzsym.Bytes("prev", 4))
+		copy(h.BlockRoot[:], zzsym.Bytes("blkroot", 4))
+	}
 	menu := zzMenu(model, zzGov(model, height))
 	B := zzsym.Choose("B", bmax+1)
-	c := zzsym.Int("cfg")
-	zzsym.Assume(c >= 0 && c < ncfg)
 	hd.cfg = c
-	h := &otypes.Header{Version: 0, Height: height, Timestamp: zzsym.U32("ts"), ConsensusData: zzsym.U64("cdata"), ConsensusPayload: zzPayload(c)}
-	copy(h.PrevBlockHash[:], zzsym.Bytes("prev", 4))
-	copy(h.BlockRoot[:], zzsym.Bytes("blkroot", 4))
+	h.Height = height
+	h.ConsensusPayload = zzPayload(c)
 	for j := 0; j < B; j++ {
 		k := menu[zzsym.Choose("bk", len(menu))]
 		hd.listed = append(hd.listed, k)
@@ -350,7 +366,7 @@ func zzInit() *storage.CacheDB {
 // SyncBlockHeader do (PutBlockHeader precedes UpdateConsensusPeer).
 func zzRecord(db *storage.CacheDB, r zzRec, withHeader bool) {
 	if withHeader {
-		kh := &otypes.Header{Height: r.h, Timestamp: zzsym.U32("keyts"), ConsensusPayload: zzPayload(0)}
+		kh := &otypes.Header{Height: r.h, ConsensusPayload: zzPayload(0)}
 		if PutBlockHeader(zzNative(db, nil), zzChain, kh) != nil {
 			panic("zz: PutBlockHeader")
 		}
@@ -366,17 +382,23 @@ func zzRecord(db *storage.CacheDB, r zzRec, withHeader bool) {
 }
 
 // zzSets: K validator sets recorded at arbitrary distinct 32-bit key heights, written in the order 0..K-1 (the
-// heights being arbitrary, this is every submission order).
-func zzSets(db *storage.CacheDB, K, nmax int) []zzRec {
-	n0 := zzsym.Choose("N", nmax)
+// heights being arbitrary, this is every submission order). sizes: bit n set = a set may have n members.
+func zzSets(db *storage.CacheDB, K, sizes int) []zzRec {
+	var allowed []int
+	for n := 1; n <= 7; n++ {
+		if sizes&(1<<uint(n)) != 0 {
+			allowed = append(allowed, n)
+		}
+	}
+	n0 := zzsym.Choose("N", len(allowed))
 	var model []zzRec
 	for k := 0; k < K; k++ {
-		// set k: n_k consecutive table keys starting at 2k (adjacent sets overlap when n_k > 2); the sizes rotate
-		// so that the sets have different sizes and, over the choices of N, each size governs
+		// set k: n_k consecutive table keys starting at k (the sets overlap but differ); the sizes rotate through
+		// the allowed ones so that the sets have different sizes and, over the choices of N, each size governs
 		r := zzRec{h: zzsym.U32("keyheight")}
-		n := (n0+k)%nmax + 1
+		n := allowed[(n0+k)%len(allowed)]
 		for i := 0; i < n; i++ {
-			r.keys = append(r.keys, 2*k+i)
+			r.keys = append(r.keys, k+i)
 		}
 		// distinct key heights: SyncBlockHeader skips a height that already has a header, so two headers never
 		// record a set at the same height (a repeated genesis installation is C19's subject)
@@ -395,7 +417,7 @@ func zzSets(db *storage.CacheDB, K, nmax int) []zzRec {
 func ZZ_C31_OntHeaderQuorum() {
 	db := zzInit()
 	K := 1 + zzsym.Choose("K", zzsym.Param("KMAX"))
-	model := zzSets(db, K, zzsym.Param("NMAX"))
+	model := zzSets(db, K, zzsym.Param("SIZES"))
 	bmax := zzsym.Param("BMAX")
 	if K >= 3 {
 		bmax = zzsym.Param("BMAX3")
@@ -403,7 +425,7 @@ func ZZ_C31_OntHeaderQuorum() {
 	// a signature list shorter than the bookkeeper list: explored for K == 1 only (VerifyMultiSignature does
 	// not depend on the key-height list)
 	fewer := K == 1 && zzsym.Choose("fewer", 2) == 1
-	hd := zzMakeHeader(model, bmax, fewer, zzsym.Param("NCFG"))
+	hd := zzMakeHeader(model, bmax, fewer, zzsym.Param("NCFG"), 0)
 	// Every key height has a stored header in a reachable state (PutBlockHeader precedes UpdateConsensusPeer in
 	// SyncGenesisHeader and SyncBlockHeader), so a header at a key height is skipped: that rule is exercised by
 	// ZZ_C31_OntHistory, whose states contain the stored headers. Here the stored headers are left out (their
@@ -420,7 +442,7 @@ func ZZ_C31_OntHeaderQuorum_witness() {
 	db := zzInit()
 	model := []zzRec{{h: zzsym.U32("keyheight"), keys: []int{0}}}
 	zzRecord(db, model[0], false)
-	hd := zzMakeHeader(model, 1, false, 2)
+	hd := zzMakeHeader(model, 1, false, 2, 0)
 	err := zzSubmit(db, hd)
 	zzsym.Assert(err != nil, "witness: a header signed by the single recorded validator is accepted")
 }
@@ -430,27 +452,28 @@ func ZZ_C31_OntHeaderQuorum_witness() {
 func ZZ_C31_OntKeyHeights() {
 	db := zzInit()
 	K := 1 + zzsym.Choose("K", zzsym.Param("KMAX"))
-	model := zzSets(db, K, 2)
+	model := zzSets(db, K, 6)
 	zzCheckRecorded(db, model, true)
 	zzsym.Cover("checked")
 }
 
 func ZZ_C31_OntKeyHeights_witness() {
 	db := zzInit()
-	model := zzSets(db, 2, 2)
+	model := zzSets(db, 2, 6)
 	got, err := FindKeyHeight(zzNative(db, nil), zzsym.U32("probe"), zzChain)
 	zzsym.Assert(err != nil || got == model[0].h, "witness: the second recorded set can govern a height")
 }
 
-// ZZ_C31_OntHistory: a light client initialised with a genesis validator set (the writes SyncGenesisHeader
-// performs after its witness check: PutBlockHeader and putConsensusPeers), then T headers
-// submitted one after the other, each with arbitrary height (below, between, above, equal to earlier ones),
-// bookkeepers, signers and announced configuration. The exploration of a history stops at its first header
-// that is not accepted (it leaves the state unchanged, which is asserted).
+// ZZ_C31_OntHistory: a light client initialised with a genesis validator set at height 2 (the writes
+// SyncGenesisHeader performs after its witness check: PutBlockHeader and putConsensusPeers), then T headers
+// submitted one after the other, each with a height in [0,HMAX) (below, between, above, equal to earlier ones),
+// any bookkeepers, signers and announced configuration. The exploration of a history stops at its first header
+// that is not accepted (it leaves the state unchanged, which is asserted). Heights are explored value by value
+// here (concrete storage keys); arbitrary 32-bit heights are the subject of ZZ_C31_OntHeaderQuorum.
 func ZZ_C31_OntHistory() {
 	db := zzInit()
 	n := 1 + zzsym.Choose("N", zzsym.Param("NMAX"))
-	g := zzRec{h: zzsym.U32("keyheight")}
+	g := zzRec{h: 2}
 	for i := 0; i < n; i++ {
 		g.keys = append(g.keys, i)
 	}
@@ -459,7 +482,7 @@ func ZZ_C31_OntHistory() {
 	stored := []uint32{g.h}
 	T := zzsym.Param("T")
 	for t := 0; t < T; t++ {
-		hd := zzMakeHeader(model, zzsym.Param("BMAX"), false, zzsym.Param("NCFG"))
+		hd := zzMakeHeader(model, zzsym.Param("BMAX"), false, zzsym.Param("NCFG"), zzsym.Param("HMAX"))
 		var ok bool
 		model, stored, ok = zzStep(db, model, stored, hd, t == T-1)
 		if !ok {
@@ -474,18 +497,18 @@ func ZZ_C31_OntHistory() {
 
 func ZZ_C31_OntHistory_witness() {
 	db := zzInit()
-	g := zzRec{h: 5, keys: []int{0}}
+	g := zzRec{h: 2, keys: []int{0}}
 	zzRecord(db, g, true)
 	model := []zzRec{g}
 	stored := []uint32{g.h}
-	hd := zzMakeHeader(model, 1, false, 2)
+	hd := zzMakeHeader(model, 1, false, 2, 5)
 	zzsym.Assume(hd.cfg == 1)
 	var ok bool
 	model, stored, ok = zzStep(db, model, stored, hd, false)
 	if !ok {
 		return
 	}
-	hd2 := zzMakeHeader(model, 1, false, 1)
+	hd2 := zzMakeHeader(model, 1, false, 1, 6)
 	zzsym.Assume(hd2.height > hd.height)
 	err := zzSubmit(db, hd2)
 	zzsym.Assert(err != nil, "witness: after an accepted change a later header signed by the new set is accepted")
